@@ -220,8 +220,8 @@ func (r *c07RtspPub) sendPkt(k *sim.Kernel, src *c07Src, t int, q rtpc.Packet) b
 	return r.c.SendRtp(src.trackIndex(t), q)
 }
 func (r *c07RtspPub) sendFrame(k *sim.Kernel, src *c07Src, fi int) {}
-func (r *c07RtspPub) gone() (bool, string)                        { return r.c.Closed, fmt.Sprintf("statuses %v", r.c.Status) }
-func (r *c07RtspPub) leave(k *sim.Kernel)                         { r.c.Leave(false) }
+func (r *c07RtspPub) gone() (bool, string)                         { return r.c.Closed, fmt.Sprintf("statuses %v", r.c.Status) }
+func (r *c07RtspPub) leave(k *sim.Kernel)                          { r.c.Leave(false) }
 
 type c07GbPub struct {
 	tcp  bool
@@ -359,7 +359,9 @@ func (c *c07CustomPub) sendFrame(k *sim.Kernel, src *c07Src, fi int) {
 		}
 	})
 }
-func (c *c07CustomPub) gone() (bool, string) { return c.dead, "FeedAvPacket reported the session disposed" }
+func (c *c07CustomPub) gone() (bool, string) {
+	return c.dead, "FeedAvPacket reported the session disposed"
+}
 func (c *c07CustomPub) leave(k *sim.Kernel) {
 	if c.ctx != nil {
 		c.call(k, "DelCustomizePubSession", func() { c.w.Srv.DelCustomizePubSession(c.ctx) })
